@@ -155,6 +155,7 @@ def _publish(ck, p):
             good, why = _watched_files(p, f, cfg, pv, sends, hsends)
             ok = ok and good
             detail += "; " + why
+            _segments_pitfall(ck, p, f, rule)
         n += 1
         ck.decide(rule, "Backend::%s" % name, ok, f.span, detail)
     ck.floor(rule, "handler paths checked", n, 8)
@@ -183,6 +184,25 @@ def _publish(ck, p):
             always, wit = fcfg.every_path_passes(0, [snd[0][0]])
             ck.decide(rule, "Backend::publish_diagnostics:always-sends", always, f.span, "every path through publish_diagnostics reaches client.send_notification(PublishDiagnostics): %s%s" % (
                 always, "" if always else " - blocks %s return without publishing: the client keeps whatever it was last sent (for a re-opened document: the empty list did_close published)" % wit))
+
+
+def _segments_pitfall(ck, p, f, rule):
+    """which open documents a deleted path covers: a comparison by Url::path_segments() must cope with the empty last
+    segment that a directory URI written with a trailing slash has (url crate: "/a/b/" -> ["a", "b", ""])"""
+    bodies = list(with_closures(p, f))
+    for g in list(getattr(p, "new_helpers", {}).values()):
+        bodies += with_closures(p, g)
+    segs = [(h, t) for h in bodies for _, t in h.calls() if method(t) == "path_segments" and "url" in norm(inst_of(t)).lower()]
+    if not segs:
+        return
+    names = {method(t) for h in bodies for _, t in h.calls()}
+    handled = names & {"filter", "is_empty", "pop_if_empty", "trim_end_matches", "strip_suffix", "trim_matches", "rsplit_terminator", "split_terminator"}
+    key = "Backend::did_change_watched_files:deleted-path-match"
+    h, t = segs[0]
+    if handled:
+        ck.undecided(rule, key, h.loc(t["ln"]), "documents below a deleted path are matched by path segments; empty segments are handled somehow (%s) - whether a directory URI with a trailing slash still covers its documents is not decided" % sorted(handled))
+    else:
+        ck.refuted(rule, key, h.loc(t["ln"]), "documents below a deleted path are matched by comparing Url::path_segments() one by one, and nothing deals with empty segments: a directory URI written with a trailing slash (file:///notes/chapter/) ends in an empty segment that no document path has at that position, so the open documents below the deleted directory keep their state and never get the empty publishDiagnostics")
 
 
 def _helper_empty_sends(p, f):
@@ -322,8 +342,7 @@ def _lock_chain(f, pv, op):
     return names
 
 
-def _source(ck, p):
-    rule = "R-C09-source"
+def _source(ck, p, rule="R-C09-source"):
     target = B0 + "update_document_from_file"
     sites = []
     for f in p.fns.values():
@@ -344,6 +363,8 @@ def _source(ck, p):
             key = "execute_command:%s" % (arm[0] if arm else "?")
         if short == "did_save":
             ck.proved(rule, key, f.loc(t["ln"]), "did_save re-reads the file it was told has just been saved")
+        elif isinstance(_only_when_not_open(f, bi), tuple):
+            ck.refuted(rule, key, f.loc(t["ln"]), "%s reads the file from disk when doc_state.get(url) passed through %s is None: an open document can take that arm (its entry is filtered away), so its unsaved buffer is replaced by the disk content and every position published afterwards refers to another text than the client holds" % (key, _only_when_not_open(f, bi)[1]))
         elif _only_when_not_open(f, bi):
             ck.proved(rule, key, f.loc(t["ln"]), "the disk is read only on the None arm of doc_state.get(url): the document is not open, so there is no buffer text to prefer")
         else:
@@ -372,9 +393,12 @@ def _only_when_not_open(f, call_bb):
         for o in org:
             if o[0] != "discr":
                 continue
-            for r in arg_roots(f, pv, {"c": [0]}) if False else _roots_of(f, pv, o[1]):
+            roots = _roots_of(f, pv, o[1])
+            for r in roots:
                 if r[0] == "call" and method(f.blocks[r[1]]["t"]) == "get" and "doc_state" in _lock_chain(f, pv, f.blocks[r[1]]["t"]["args"][0]):
-                    return True
+                    # between get(url) and the test nothing may turn Some into None: "not open" must mean "no entry"
+                    lossy = sorted({method(f.blocks[x[1]]["t"]) for x in roots if x[0] == "call"} & {"filter", "and_then", "filter_map", "take_if", "xor", "zip", "then", "then_some", "ok", "ok_or"})
+                    return ("lossy", lossy) if lossy else True
     return False
 
 
